@@ -21,8 +21,8 @@ CHECKS = {
          "deterministic simulation with fault injection at every send/receive position", "DESIGN.md 6 C10"),
  "C11": ("exploration", "Every message handed to Socket.send in every scenario is checked as exactly one encapsulation frame in connection context by a strict independent parser at the byte stream (header, length, session handle granted, CPF items, connection id granted).",
          "byte-stream monitor in the simulated network/endpoint", "DESIGN.md 6 C11"),
- "C12": ("fault_enumeration", "The real Socket class over a simulated byte stream: complete enumeration of the small spaces named in DESIGN 6/C12 (all compositions of the first 8/11 bytes, first chunk 1..30, every fault kind after every byte of small frames) plus seeded random compositions, lengths 0..65511; oracle = exact bytes / CommError / bounded raw socket calls.",
-         "seeded recv/send segmentation and fault injection (FIN/RST/timeout/EPIPE) against the real Socket", "DESIGN.md 6 C12"),
+ "C12": ("fault_enumeration", "The real Socket class over a simulated byte stream: complete enumeration of the small spaces named in DESIGN 6/C12 (all compositions of the first 8/11 bytes, first chunk 1..30, every fault kind after every byte of small frames) plus seeded random compositions, lengths 0..65511, plus two Socket objects used by two real caller threads under a seeded scheduler that decides after every raw socket call who runs next; oracle = exact bytes / CommError / bounded raw socket calls.",
+         "seeded recv/send segmentation and fault injection (FIN/RST/timeout/EPIPE) against the real Socket; seeded thread scheduling (baton passing) for two concurrent callers", "DESIGN.md 6 C12, 13.2"),
  "C13": ("fault_enumeration", "Reply faults injected by the simulated device: every general status 0..255 x extended-status shapes x request kinds, header-only encapsulation errors, truncation at every byte, bit flips, garbage; an independent classifier of the delivered bytes decides what the public call must report.",
          "deterministic simulation with reply-fault injection; independent status classifier", "DESIGN.md 6 C13"),
  "C14": ("exploration", "generic_message and helpers against scripted objects in a routed chassis; the target's message-router log (service, path, data, transport, route, module reached) must equal the request; replies returned verbatim/decoded; get/set time under the virtual clock.",
